@@ -44,6 +44,9 @@ def isinstance_check(run, v, cls, node):
             return h(run, v)
         raise err(f"isinstance({v}, {name})")
     ty = v.ty
+    h = run.x.reg.stubs.get(("isinstance_of", ty.name))
+    if h is not None:
+        return h(run, v, name)
     if isinstance(ty, TOpt):
         inner = isinstance_check(run, Val(ty.inner, ty.get(v.t)), cls, node)
         return z3.And(z3.Not(ty.is_none(v.t)), inner)
